@@ -740,7 +740,7 @@ def see_saw_task(shape, who):
             mod.random_povm = orig
 
     def reference(Vm, inst):
-        mats = Vm.mats
+        mats = [Vm.herm(i) for i in range(len(Vm))]      # textbook domain: complex Hermitian POVM elements
         cons = []
         obj = 0
         if who == "alice":
